@@ -35,8 +35,9 @@ structure RCfg where
   rangeStop : Nat := 0
   noLibcall : Bool := false    -- --no-libcall
   noMerge : Bool := false      -- replay --no-merge
-  pltFixed : Bool := false     -- true: replay and script filter a --no-libcall PLT record like the other
-                               -- commands do and only hide it (repair of finding F-C07-NOLIBCALL)
+  pltFixed : Bool := true      -- replay and script filter a --no-libcall PLT record like the other commands and
+                               -- only hide it; false = the code before the repair of finding F-C07-NOLIBCALL,
+                               -- which dropped the record before fstack_entry / fstack_exit
   trig : Nat → Trigger := fun _ => {}
   hide : Nat → Bool := fun _ => false   -- TRIGGER_FL_HIDE (-H, hide action)
   plt : Nat → Bool := fun _ => false    -- sym->type == ST_PLT_FUNC
